@@ -176,7 +176,7 @@ def _to_stubs(ctx, ns0, F0, log, cap):
 
 
 def _register_to():
-    for consts_case, free_case in itertools.product(["empty", "str", "nonstr", "emptystr"], [False, True]):
+    for consts_case, free_case in itertools.product(["empty", "str", "nonstr", "emptystr", "int", "bytes", "tuple"], [False, True]):
         def h(ctx, cfg, consts_case=consts_case, free_case=free_case):
             ns0 = glue_ns()
             names = sorted(spec_defined_flags(cfg).values())
@@ -188,7 +188,7 @@ def _register_to():
             a, k, p = (ctx.input(n, SymInt.fresh(n)) for n in ("co_argcount", "co_kwonlyargcount", "co_posonlyargcount"))
             ctx.assume(z3.And(a.z >= 0, k.z >= 0, p.z >= 0, p.z <= a.z), "pre: WF counts")
             s0 = StrConst()
-            consts = {"empty": (), "str": (s0, 1), "nonstr": (None, s0), "emptystr": ("", 1)}[consts_case]
+            consts = {"empty": (), "str": (s0, 1), "nonstr": (None, s0), "emptystr": ("", 1), "int": (7, s0), "bytes": (b"not a docstring",), "tuple": (("a", "b"), None)}[consts_case]
             first = ctx.input("co_firstlineno", SymInt.fresh("first"))
             code = types.SimpleNamespace(co_posonlyargcount=p, co_argcount=a, co_kwonlyargcount=k, co_varnames=("v0", "v1"), co_flags="WORD",
                                          co_consts=consts, co_freevars=("x",) if free_case else (), co_cellvars=(), co_code=b"\x00\x00\x01\x00", co_names=("nm",),
@@ -357,7 +357,7 @@ def _register_from():
                     ctx.prove("post.additional_line_added_at_len(code)_before_the_shift", z3.BoolVal(len(aal) == 1 and aal[0][1] == "ADDITIONAL-LINE" and aal[0][2] == 6 and order.index("add_additional_line") < order.index("modify_line_offsets")))
                 b2b = [e for e in log if e[0] == "blocks_to_bytes"][0][1]
                 ctx.prove("post.blocks_to_bytes_receives(blocks, additional_args, freevars, type)", z3.BoolVal(b2b == ("BLOCKS", "ADDL", cd.freevars, tp)))
-        harness("glue.from_code_data.modular[kind=%s,va=%d,vk=%d,free=%d,ann=%d,nested=%d]" % (kind, va, vk, free, annotations, nested), props=["C01", "C03", "C11", "C10", "C05"],
+        harness("glue.from_code_data.modular[kind=%s,va=%d,vk=%d,free=%d,ann=%d,nested=%d]" % (kind, va, vk, free, annotations, nested), props=["C01", "C03", "C11", "C10", "C05", "C06"],
                 functions=["code_data._code_data.from_code_data"], configs="all", cost=1,
                 assumes=["callee contracts: blocks_to_bytes, args_to_input, from_flags_data, from_line_mapping, types.CodeType as a record constructor"],
                 notes="complete case split over the data's kind/flags with symbolic counts and first line: CodeType receives exactly the described header, flag set and tables")(h)
@@ -383,7 +383,7 @@ def h_canary(ctx, cfg):
         ctx.prove("canary.never_raises", z3.BoolVal(False))
 
 
-@harness("glue.header_roundtrip.lemma", props=["C11", "C01"], functions=["code_data._code_data.to_code_data", "code_data._code_data.from_code_data"], configs="all", cost=10,
+@harness("glue.header_roundtrip.lemma", props=["C11", "C01", "C06"], functions=["code_data._code_data.to_code_data", "code_data._code_data.from_code_data"], configs="all", cost=10,
          assumes=["callee contracts as in the two modular harnesses; blocks_to_bytes reproduces the variable and cell tables (operand-table lemma of C01)"],
          notes="composition of the two modular contracts over a symbolic flag set and symbolic counts: whenever to_code_data returns, from_code_data of the captured fields passes CodeType "
                "exactly the original flag set and the original argcount / posonlyargcount / kwonlyargcount / nlocals / first line")
